@@ -190,6 +190,10 @@ def motion_notify_rule(ctx, cg=None):
 
 
 def run(ctx):
+    from ..shared import lazy_field_memo_rule as _lazy_field_memo_rule
+
+    # a field filled on first use from assignable parameters and never reset survives the assignment (R18.22 shared)
+    ctx.attempt(_lazy_field_memo_rule, ctx, 'R14.32', lambda ci: ci.module.name.startswith(('EasyFEA.Models', 'EasyFEA.Simulations', 'EasyFEA.FEM')), 1)
     from ..shared import foreign_state_rule as _fsr
 
     ctx.attempt(_fsr, ctx, 'R14.31', lambda f, _s=('EasyFEA.FEM', 'EasyFEA.Simulations', 'EasyFEA.Models'): f.module.name.startswith(_s))
